@@ -84,7 +84,11 @@ class ConnModel(object):
                 return AMBIGUOUS, "release without name and without claim"
             return VALID, ""
         if t == "open":
+            if "mailbox" not in msg:
+                return REJECTED, "missing field"
             if self.holds is not None:
+                if self.stale:
+                    return AMBIGUOUS, "open while holding a deleted mailbox"
                 return REJECTED, "open while holding"
             if "mailbox" not in msg:
                 return REJECTED, "missing field"
@@ -94,6 +98,10 @@ class ConnModel(object):
         if t == "add":
             if self.holds is None:
                 return REJECTED, "add without open mailbox"
+            if "phase" not in msg or "body" not in msg:
+                return REJECTED, "missing field"
+            if self.stale:
+                return AMBIGUOUS, "add through stale handle"
             if "phase" not in msg or "body" not in msg:
                 return REJECTED, "missing field"
             if self.stale:
